@@ -105,7 +105,8 @@ Seed == IF "C11_SEED" \in DOMAIN IOEnv THEN atoi(IOEnv.C11_SEED) % 60000 ELSE 1
 \* hash of the choices of a history (all products stay below 2^31)
 KindCode(mk) == CASE mk = "parse" -> 0 [] mk = "cfparse" -> 1 [] mk = "re" -> 2 [] OTHER -> 3
 TypeCode(ty) == CASE ty = "given" -> 0 [] ty = "when" -> 1 [] OTHER -> 2
-PreCode(pre) == IF pre.a = "none" THEN 0 ELSE IF pre.a = "end" THEN 5 ELSE IF pre.a = "retype" THEN 6 ELSE 1 + KindCode(pre.kind)
+PreCode(pre) == IF pre.a = "none" THEN 0 ELSE IF pre.a = "end" THEN 5 ELSE IF pre.a = "retype" THEN 6
+                ELSE IF pre.a = "clear" THEN 7 ELSE 1 + KindCode(pre.kind)
 Code(pre, ty, i, func) == ((PreCode(pre) * 3 + TypeCode(ty)) * 6 + (i - 1)) * 8 + (func - 1)
 Mix(old, code) == LET a == (old * 131 + code * 7919 + Seed) % 65521 IN (a * 31421 + 6927) % 65521
 \* pseudo-random number of stacked decorators of a new step function: 0, 1, 2, 2
@@ -127,6 +128,7 @@ UseAct(mk)    == Act("use", mk, "", <<>>, <<>>, 0, 0, "")
 EndAct(mk)    == Act("end", mk, "", <<>>, <<>>, 0, 0, "")
 SetDefAct(mk) == Act("setdef", mk, "", <<>>, <<>>, 0, 0, "")
 ReTypeAct(mk) == Act("retype", mk, "", <<>>, <<>>, 0, 0, "")
+ClearAct(mk)  == Act("clear", mk, "", <<>>, <<>>, 0, 0, "")
 \* wrap: the step function is registered through `wrap` stacked decorators (the registry has to see through them)
 RegAct(s, ty, p, func, wrap, res) == Act("reg", s.current, ty, p, Render(p, s.current), func, wrap, res)
 
@@ -153,14 +155,20 @@ EnvDefault == /\ ph = "start"
               /\ ph' = "hist" /\ h' = 7 /\ UNCHANGED <<b, nreg, nfun, fw, texts, look>>
 
 \* an optional matcher switch, then one registration
+\* registry.clear() (second use of one registry object): at most once per history, before the first or the second
+\* registration (so also on the still empty registry); histories with a clear are thinned out (1 of ClearMod) from the second registration on
+Cleared == \E k \in DOMAIN hist : hist[k].a = "clear"
+ClearMod == 8
 PreOptions(s) == {[a |-> "none", kind |-> s.current]}
                  \cup {[a |-> "use", kind |-> mk] : mk \in HistKinds \ {s.current}}
                  \cup (IF s.current # s.default THEN {[a |-> "end", kind |-> s.default]} ELSE {})
                  \cup (IF s.current \in ParseKinds /\ s.tver = 1 THEN {[a |-> "retype", kind |-> s.current]} ELSE {})
+                 \cup (IF Cleared \/ nreg >= 2 THEN {} ELSE {[a |-> "clear", kind |-> s.current]})
 ApplyPre(s, pre) == IF pre.a = "use" THEN UseMatcher(s, pre.kind) ELSE IF pre.a = "end" THEN ModuleEnd(s)
-                    ELSE IF pre.a = "retype" THEN ReType(s) ELSE s
+                    ELSE IF pre.a = "retype" THEN ReType(s) ELSE IF pre.a = "clear" THEN Clear(s) ELSE s
 PreActs(pre) == IF pre.a = "use" THEN <<UseAct(pre.kind)>> ELSE IF pre.a = "end" THEN <<EndAct(pre.kind)>>
-                ELSE IF pre.a = "retype" THEN <<ReTypeAct(pre.kind)>> ELSE <<>>
+                ELSE IF pre.a = "retype" THEN <<ReTypeAct(pre.kind)>>
+                ELSE IF pre.a = "clear" THEN <<ClearAct(pre.kind)>> ELSE <<>>
 HasCustom(p) == \E n \in DOMAIN p : p[n].k = "custom"
 RegisterStep ==
    /\ ph \in {"start", "hist"} /\ nreg < MaxRegs
@@ -170,6 +178,7 @@ RegisterStep ==
          IN /\ IF st.default = "parse" THEN Kept(nreg + 1, Mix(h, Code(pre, ty, i, func)))
                                         ELSE KeptEnv(nreg + 1, Mix(h, Code(pre, ty, i, func)))
             /\ Renderable(p, s1.current)
+            /\ ((Cleared \/ pre.a = "clear") /\ nreg >= 1) => (Mix(h, Code(pre, ty, i, func)) \div 3) % ClearMod = 0
             /\ pre.a = "retype" => HasCustom(p)        \* the type is re-registered just before a pattern that uses it
             /\ h' = Mix(h, Code(pre, ty, i, func))
             /\ fw' = IF func > nfun THEN Append(fw, WrapLevel(Mix(Mix(h, Code(pre, ty, i, func)), 17))) ELSE fw
@@ -220,8 +229,9 @@ TypeOrGeneric ==
 \* candidate takes it (then that one matches the instance, too)
 AcceptedFindable ==
    Emitting =>
-   \A k \in DOMAIN RegActs :
-      RegActs[k].res = "ok" => Lookup(st, RegActs[k].ty, Inst(RegActs[k].pat, 1)).func # 0
+   \A k \in DOMAIN hist :
+      (hist[k].a = "reg" /\ hist[k].res = "ok" /\ ~\E m \in (k + 1)..Len(hist) : hist[m].a = "clear")      \* not cleared since
+         => Lookup(st, hist[k].ty, Inst(hist[k].pat, 1)).func # 0
 
 \* Match against an independent, declarative reading: lens[i] = number of tokens element i consumes
 RECURSIVE SumTo(_,_)
